@@ -80,6 +80,41 @@ def corr(ctx):
                 ok &= len(v) == 1 and (close(float(v[0]), mv, rel=1e-9) or (math.isnan(float(v[0])) and math.isnan(mv)))
         ctx.corr_case("kroupa", ok, {"a": a, "mlim": jfl(mlim), "model": o[:160]}, branch=f"n={len(a)}" + ("/special" if any(x in (1.0, 2.0) for x in a) else ""))
     ctx.sample({"op": "kroupa", "a": objs[0][0], "mlim": objs[0][1]})
+    # the integral() method: piece selection (ranges inside one piece, spanning several, ending on limits, outside the domain)
+    cases = []
+    for a, mlim in objs:
+        for _ in range(4):
+            r = ctx.rng.random()
+            if r < 0.5:
+                lo = loguniform(ctx.rng, mlim[0], mlim[-1]); hi = loguniform(ctx.rng, lo, mlim[-1])
+            elif r < 0.8:
+                lo = ctx.rng.choice(mlim[:-1]); hi = ctx.rng.choice([m for m in mlim if m > lo] + [loguniform(ctx.rng, lo, mlim[-1])])
+            elif r < 0.9:
+                lo = mlim[0] * ctx.rng.choice([0.5, 0.999999]); hi = mlim[-1]
+            else:
+                lo = mlim[0]; hi = mlim[-1] * ctx.rng.choice([1.000001, 2.0])
+            cases.append((a, mlim, float(lo), float(hi)))
+    outs = run_driver([f"kintegral {h(lo)} {h(hi)} {hl(a)} {hl(mlim)}" for a, mlim, lo, hi in cases])
+    for (a, mlim, lo, hi), o in zip(cases, outs):
+        with np.errstate(all="ignore"):
+            k = Kroupa(a=a, mlim=mlim)
+            try:
+                I0, I1 = k.integral(lo, hi)
+                real_v = ("ok", float(I0), float(I1))
+            except ValueError as e:
+                real_v = ("err", "below" if "less than" in str(e) else "above")
+            except IndexError:
+                real_v = ("err", "index")
+        t = o.split()
+        if real_v[0] == "err" or t[0] == "err":
+            ok = t[0] == real_v[0] and t[1] == real_v[1]
+            br = "error"
+        else:
+            sc0 = sum(abs(float(k._norm * k._C[i])) * abs(float(k._mom0(mlim[i], mlim[i + 1], a[i]))) for i in range(len(a)))
+            sc1 = sum(abs(float(k._norm * k._C[i])) * abs(float(k._mom1(mlim[i], mlim[i + 1], a[i]))) for i in range(len(a)))
+            ok = (close(real_v[1], uh(t[1]), sc0, rel=1e-10) and close(real_v[2], uh(t[2]), sc1, rel=1e-10))
+            br = "on-limit" if (lo in mlim or hi in mlim) else "inside"
+        ctx.corr_case("kintegral", ok, {"a": a, "mlim": jfl(mlim), "range": [jf(lo), jf(hi)], "real": str(real_v), "model": o}, branch=br)
 
 
 # ------------------------------------------------------------------ predicates on the real code
